@@ -64,6 +64,7 @@ fn scenario(rec: &mut Rec, ctx: &Ctx, idx: u64, rng: &mut ChaCha20Rng) {
     _ => rng.gen_range(1..24),
   };
   let groups = ((groups as f64) * ctx.scale.min(1.0)).ceil() as usize;
+  let (t, groups) = if ctx.flag("tiny") { (2u32, 2usize) } else { (t, groups) };
   let epoch: String = (0..rng.gen_range(0..6)).map(|_| char::from(rng.gen_range(0x61u8..0x7b))).collect();
   let mut expected: Canon = BTreeMap::new();
   let mut messages: Vec<Message> = Vec::new();
@@ -113,7 +114,7 @@ fn scenario(rec: &mut Rec, ctx: &Ctx, idx: u64, rng: &mut ChaCha20Rng) {
   rec.evn("reports_generated", messages.len() as u64);
   let server = AggregationServer::new(t, &epoch);
   let pools: Vec<usize> = if ctx.flag("smallpools") { vec![1, 3] } else { vec![1, 2, 3, 4, 8, 16] };
-  let perms = 3;
+  let perms = if ctx.flag("tiny") { 1 } else { 3 };
   let mut reference: Option<Canon> = None;
   for &np in &pools {
     let pool = match rayon::ThreadPoolBuilder::new().num_threads(np).build() {
@@ -213,7 +214,8 @@ pub fn run(ctx: &Ctx) -> Rec {
   // hook trace is global
   let mut c1 = ctx.clone();
   c1.threads = 1;
-  let rec = par_run(&c1, "scenario", ctx.n(120, 4000), |rec, i, rng| scenario(rec, ctx, i, rng));
+  let n = if ctx.flag("tiny") { 1 } else { ctx.n(120, 4000) };
+  let rec = par_run(&c1, "scenario", n, |rec, i, rng| scenario(rec, ctx, i, rng));
   star_test_utils::verif::set_bucket_hook(None);
   rec
 }
